@@ -87,16 +87,8 @@ def CObj.classes : CObj → List String
   | .andor _ a b => a.classes ++ b.classes
   | .inv a => a.classes
 
-def SCond.sumMinus (env : List VarLoc) : SCond → Bool
-  | .cmp _ a b => Gen.sumMinus env a || Gen.sumMinus env b
-  | .truth e => Gen.sumMinus env e
-  | .not c => c.sumMinus env
-  | .and a b => a.sumMinus env || b.sumMinus env
-  | .or a b => a.sumMinus env || b.sumMinus env
-
 def condClasses (env : List VarLoc) (c : SCond) : List String :=
-  (if c.sumMinus env then ["sum-minus"] else []) ++
-    (match elabC env c with | .ok o => o.classes | .error _ => [])
+  match elabC env c with | .ok o => o.classes | .error _ => []
 
 /-- class names of a statement program (assignments: C01's classes) -/
 def stmtClassesS (env : List VarLoc) : SStmt → List String
